@@ -26,12 +26,13 @@ Ev == Events[n]
 TraceInit == /\ n \in 1..Len(Events)
              /\ phase = "src" /\ ast = Events[n].in /\ cms = Events[n].cin
              /\ doc = <<>> /\ cfg = Events[n].cfg /\ cm = <<>>
+             /\ plan = [doc |-> "trace", cfg |-> "trace", mc |-> 0, od |-> TRUE, sp |-> FALSE]
 
 \* the step the implementation took
 TraceFormat == /\ phase = "src" /\ phase' = "fmt1"
                /\ ast' = Ev.out /\ cms' = Ev.cout
-               /\ UNCHANGED <<n, doc, cfg, cm>>
-TraceSpec == TraceInit /\ [][TraceFormat]_<<n, phase, ast, cms, doc, cfg, cm>>
+               /\ UNCHANGED <<n, plan, doc, cfg, cm>>
+TraceSpec == TraceInit /\ [][TraceFormat]_<<n, plan, phase, ast, cms, doc, cfg, cm>>
 
 \* the mechanism's prediction is computable only where no order table over arbitrary names is needed
 MechComparable == ~cfg.sort_declaration /\ ~cfg.sort_declaration_property
